@@ -127,7 +127,7 @@ CHECKS = {
              "CRLF, at most 76 characters per line soft breaks included, no bare trailing blank: a width invariant over the line buffer), "
              "refusal_matrix. encodedOk is also applied to every real encoder output. "
              "Correspondence: exhaustive strings over a 9-symbol alphabet x String/Vec<u8> x 6 requested encodings, line lengths around "
-             "76 and 998, escape ratios around 1/3, sizes to 64 KiB / 1 MiB, through Body and SinglePart.",
+             "76 and 998, escape ratios around 1/3, sizes to 64 KiB / 256 KiB, through Body and SinglePart.",
         design_ref="DESIGN.md 5 C10",
         note="Trusted: Lean kernel; axioms propext/Quot.sound/Classical.choice; Spec/BodyDec.lean as the reading of RFC 2045 6.7/6.8; model + harness. "
              "Every clause of the statement is a theorem about the model.",
